@@ -542,6 +542,103 @@ pub fn program(b: &BuiltIn, ctx: Ctx, args: &[(Ty, Shape)], vals: &[String], dat
     out
 }
 
+// ---- non-scalar argument kinds -------------------------------------------------------------------------
+
+/// Declarations every program of the non-scalar families starts with.
+pub const ODD_PRELUDE: &str = "TYPE REC\n I AS INTEGER\n L AS LONG\n S AS SINGLE\n D AS DOUBLE\n T AS STRING * 8\nEND TYPE\n\
+TYPE NEST\n R AS REC\n K AS INTEGER\nEND TYPE\n\
+DIM RQ AS REC\nDIM RQA(1 TO 2) AS REC\nDIM NQ AS NEST\nDIM NQA(0 TO 1) AS NEST\n\
+DIM WI%(1 TO 3)\nDIM WS$(1 TO 3)\nDIM WD#(1 TO 2, 0 TO 1)\nDIM WR(1 TO 3) AS REC\nDIM WF(1 TO 2) AS STRING * 3\n\
+DIM FQ AS STRING * 4\nFQ = \"ab\"\nRQ.I = 1\nRQ.T = \"t\"\nWI%(1) = 1\nWS$(1) = \"w\"\n";
+
+/// What a program can write in an argument / operand position besides a scalar of the five built-in
+/// types: a record variable, a record-typed array element, a record-valued field, a whole array with and
+/// without empty parentheses (INTEGER, STRING, DOUBLE 2-d, record and fixed-string elements), a
+/// fixed-length string variable and array element, a record field of each type, a call of an undefined
+/// function (bare, `$`, `%`), a variable that was never assigned. `(name, text)`; all names are declared by
+/// `ODD_PRELUDE`.  `odd_kinds(true)` adds each of them in parentheses.
+pub fn odd_kinds(with_parens: bool) -> Vec<(String, String)> {
+    let base: Vec<(&str, &str)> = vec![
+        ("record-variable", "RQ"),
+        ("record-array-element", "RQA(1)"),
+        ("nested-record-variable", "NQ"),
+        ("record-valued-field", "NQ.R"),
+        ("record-valued-field-of-array-element", "NQA(1).R"),
+        ("whole-array-int", "WI%"),
+        ("whole-array-int-parens", "WI%()"),
+        ("whole-array-str", "WS$"),
+        ("whole-array-str-parens", "WS$()"),
+        ("whole-array-dbl2", "WD#"),
+        ("whole-array-dbl2-parens", "WD#()"),
+        ("whole-array-record", "WR"),
+        ("whole-array-record-parens", "WR()"),
+        ("whole-array-fixed-string-parens", "WF()"),
+        ("fixed-string-variable", "FQ"),
+        ("fixed-string-array-element", "WF(1)"),
+        ("field-int", "RQ.I"),
+        ("field-long", "RQ.L"),
+        ("field-single", "RQ.S"),
+        ("field-double", "RQ.D"),
+        ("field-fixed-string", "RQ.T"),
+        ("field-of-array-element", "RQA(2).T"),
+        ("nested-field", "NQ.R.D"),
+        ("undefined-function", "UNDEFQ(1)"),
+        ("undefined-function-str", "UNDEFQ$(1)"),
+        ("undefined-function-int2", "UNDEFQ%(1, 2)"),
+        ("unassigned-variable", "UQ"),
+        ("unassigned-variable-str", "UQ$"),
+    ];
+    let mut v: Vec<(String, String)> = base.iter().map(|(n, t)| (n.to_string(), t.to_string())).collect();
+    if with_parens {
+        for (n, t) in base.iter() {
+            v.push((format!("({})", n), format!("({})", t)));
+        }
+    }
+    v
+}
+
+/// Constructor name of a non-scalar kind in the Lean enumeration `RbModel.Outcome.Ty` (`record-variable` -> `recordVariable`).
+pub fn odd_lean(name: &str) -> String {
+    let mut out = String::new();
+    let mut up = false;
+    for c in name.chars() {
+        if c == '-' {
+            up = true;
+        } else if up {
+            out.push(c.to_ascii_uppercase());
+            up = false;
+        } else {
+            out.push(c);
+        }
+    }
+    out
+}
+
+/// The program for one call of `b` whose argument texts are given (`ODD_PRELUDE` first; the scalar
+/// arguments are variables `V<i><sigil>` assigned `values(ty)[1]`, position `odd_at` holds `odd_text`).
+pub fn program_with_odd(b: &BuiltIn, ctx: Ctx, tys: &[Ty], odd_at: &[usize], odd_text: &str, data_line: &str) -> String {
+    let mut out = String::from(ODD_PRELUDE);
+    if !data_line.is_empty() {
+        out.push_str(data_line);
+        out.push('\n');
+    }
+    let mut texts = vec![];
+    for (i, ty) in tys.iter().enumerate() {
+        if odd_at.contains(&i) {
+            texts.push(odd_text.to_owned());
+        } else if b.special == Special::ArrayFirst && i == 0 {
+            texts.push("WD#".to_owned());
+        } else {
+            out.push_str(&format!("V{}{} = {}\n", i, ty.sigil(), values(*ty)[1]));
+            texts.push(format!("V{}{}", i, ty.sigil()));
+        }
+    }
+    out.push_str(ctx.prelude());
+    out.push_str(&(b.fmt)(&texts));
+    out.push('\n');
+    out
+}
+
 /// Value combinations for a tuple of argument types: all values for one argument, the full cross
 /// product for two when it is small, otherwise `sweeps` diagonal sweeps with different strides.
 pub fn value_combos(tys: &[Ty], cap: usize) -> Vec<Vec<String>> {
